@@ -38,6 +38,24 @@ SolSet(e) == {{<<v, s[v]>> : v \in DOMAIN s} : s \in BuiltinSols(e.f, e.a, NoSub
 ObsSols(e) == {{<<b[1], Norm(b[2])>> : b \in Ran(sol)} : sol \in Ran(e.sols)}
 \* (a scrutinee of the wrong kind may be reported as an error instead of "no match")
 MatchOK(e) == IF e.err THEN SolSet(e) = {} ELSE ObsSols(e) = {{<<b[1], Norm(b[2])>> : b \in sol} : sol \in SolSet(e)}
+\* ground predicates: string tests, name prefix, time and duration comparisons (one total order per type)
+IsGroundPred(e) == e.f \in {":string:starts_with", ":string:ends_with", ":string:contains", ":match_prefix",
+                             ":time:lt", ":time:le", ":time:gt", ":time:ge", ":duration:lt", ":duration:le", ":duration:gt", ":duration:ge"}
+PredDefined(e) ==
+  CASE e.f \in {":string:starts_with", ":string:ends_with", ":string:contains"} -> IsStr(e.a[1]) /\ IsStr(e.a[2])
+    [] e.f = ":match_prefix" -> IsName(e.a[2])
+    [] e.f \in {":time:lt", ":time:le", ":time:gt", ":time:ge"} -> e.a[1][1] = "t" /\ e.a[2][1] = "t"
+    [] OTHER -> e.a[1][1] = "d" /\ e.a[2][1] = "d"
+PredHolds(e) ==
+  CASE e.f = ":string:starts_with" -> StartsWith(e.a[1][2], e.a[2][2])
+    [] e.f = ":string:ends_with" -> EndsWith(e.a[1][2], e.a[2][2])
+    [] e.f = ":string:contains" -> ContainsStr(e.a[1][2], e.a[2][2])
+    [] e.f = ":match_prefix" -> IsName(e.a[1]) /\ BelowPrefix(e.a[1][2], e.a[2][2])
+    [] e.f \in {":time:lt", ":duration:lt"} -> e.a[1][2] < e.a[2][2]
+    [] e.f \in {":time:le", ":duration:le"} -> e.a[1][2] <= e.a[2][2]
+    [] e.f \in {":time:gt", ":duration:gt"} -> e.a[1][2] > e.a[2][2]
+    [] OTHER -> e.a[1][2] >= e.a[2][2]
+GroundOK(e) == IF ~PredDefined(e) THEN TRUE ELSE (~e.err /\ ((Len(e.sols) > 0) = PredHolds(e)))
 Expected(e) ==
   IF e.f \in {"lt", "le", "gt", "ge"} THEN <<"bool", CmpHolds(e.f, e.a[1], e.a[2])>>
   ELSE IF IsRed(e.f) THEN Reduce(e.f, e.a)
@@ -48,7 +66,10 @@ OK(e) == LET x == Expected(e) IN
          IF IsErr(x) THEN e.err ELSE (~e.err /\ Obs(e) = Norm(x))
 Init == l = 1
 Next == /\ l <= Len(Trace) /\ l' = l + 1
-        /\ IF IsMatch(Trace[l])
+        /\ IF IsGroundPred(Trace[l])
+           THEN /\ PrintT(<<"CLASS", Trace[l].id, IF PredDefined(Trace[l]) THEN "pred" ELSE "pred_undefined">>)
+                /\ GroundOK(Trace[l]) \/ PrintT(<<"MISMATCH", Trace[l].id, 1, "WRONG_RESULT", ToJson(PredHolds(Trace[l]))>>)
+           ELSE IF IsMatch(Trace[l])
            THEN /\ PrintT(<<"CLASS", Trace[l].id, IF SolSet(Trace[l]) = {} THEN "nomatch" ELSE "match">>)
                 /\ MatchOK(Trace[l]) \/ PrintT(<<"MISMATCH", Trace[l].id, 1, "WRONG_RESULT", ToJson(SolSet(Trace[l]))>>)
            ELSE IF IsRing(Trace[l])
